@@ -22,7 +22,7 @@ def main():
         try:
             for p in props:
                 if p not in claimed and not os.path.exists(os.path.join(V, 'props', p.lower() + '.py')): res[p] = 'no check'; continue
-                out = sh('cd %s && ./check %s --tier quick' % (V, p))
+                out = sh('cd %s && VERIF_BUDGET_S=${VERIF_BUDGET_S:-600} timeout 1800 ./check %s --tier quick' % (V, p))
                 lines = [l for l in out.stdout.split('\n') if l.startswith(('VIOLATION', 'INCONCLUSIVE'))]
                 res[p] = {'exit': out.returncode, 'lines': [l[:300] for l in lines[:4]]}
         finally:
